@@ -12,7 +12,7 @@
     T5 the same for ladim.analytical.get_velocity1/2/4 (get_velocity2 for every s <> 0);
     T6 convergence with order p (explicit error constant) on every linear field. *)
 From Coq Require Import ZArith QArith List Bool Reals Qreals.
-From Ladim Require Import Base.Num Model.Tracker Proofs.TrackerProofs Proofs.SchemeProofs Proofs.ConvergenceProofs.
+From Ladim Require Import Base.Num Model.Tracker Proofs.TrackerProofs Proofs.SchemeProofs Proofs.ConvergenceProofs Model.ForcingTime Proofs.ComposeTimeProofs.
 Import ListNotations.
 Open Scope Q_scope.
 
@@ -123,6 +123,24 @@ Theorem C01_conv_order : forall p z n, (1 <= n)%nat ->
   (Rabs (Tp p (z / INR n) ^ n - exp z) <= Cconv p z / INR n ^ p)%R.
 Proof. exact conv_order. Qed.
 Print Assumptions C01_conv_order.
+
+(** T1 composed with C03 ("using the velocity the forcing supplies at the intermediate ... fractional times of
+    that scheme"): for EVERY frame layout, file split, run length and direction covered by C03 and a spatially
+    uniform field, with the velocity the forcing machine supplies at fractions 0, 1/2, 1 the EF displacement of
+    step n is v(n)*dt/dx and the RK2 and RK4 displacements are the EXACT time integral of the time-interpolated
+    forcing over the step, (v(n) + v(n+1))/2 * dt/dx (sign flipped under time reversal) *)
+Theorem C01_C03_exact_time_integral : forall (raw : list frame) (D : disk) (hs rv : bool) (n : Z)
+    (dtdx dtdy xlo xhi ylo yhi x y : Q),
+  nodupb (map fstep raw) = true -> readable raw D = true -> covers raw n = true -> (0 <= n)%Z ->
+  exists st v0 v1,
+    state_at (mk_tables raw) D hs n = Some st /\
+    lerp_spec (upts raw D) (inject_Z n + 0) = Some v0 /\ lerp_spec (upts raw D) (inject_Z n + 1) = Some v1 /\
+    let s := (if rv then -1 else 1) in
+    fst (candidate dtdx dtdy (EF (fvel st rv)) x y) == x + s * v0 * dtdx /\
+    fst (candidate dtdx dtdy (RK2 (fvel st rv) dtdx dtdy xlo xhi ylo yhi) x y) == x + s * ((v0 + v1) / 2) * dtdx /\
+    fst (candidate dtdx dtdy (RK4 (fvel st rv) dtdx dtdy xlo xhi ylo yhi) x y) == x + s * ((v0 + v1) / 2) * dtdx.
+Proof. exact rk_exact_time_integral. Qed.
+Print Assumptions C01_C03_exact_time_integral.
 
 (** the conjunction that stands for the property; the convergence clause for arbitrary smooth fields
     is the missing part (see the header) *)
